@@ -116,6 +116,77 @@ class compute_block_id:
                     yield {"ind": ind, "idx_to_block": m, "numblocks": nb}
 
 
+def _idx_to_block(rank):
+    @contract(f"{BW}::Blockwise._idx_to_block", spec=f"rank{rank}", props=["C20", "C02", "C04"])
+    class idx_to_block:
+        """label -> block coordinate for one output block of a fused Blockwise: every label of the output maps to the
+        output block's own coordinate along that axis -- also a label listed in new_axes (an ArrayBlockwiseDep payload such
+        as map_blocks' block_info / block_id is indexed by it) -- and a new axis that is not part of the output maps to 0.
+        Labels are abstracted as integers (distinct labels = distinct integers)."""
+        params = {"self": "obj:Blockwise", "block_id": "tup:int"}
+        ghosts = {"q": "int"}
+        params = {"self": "obj:Blockwise", "block_id": "tup:" + ",".join(["int"] * rank)}
+        fields = {"Blockwise": {"out_ind": "tup:" + ",".join(["int"] * rank), "new_axes": "map:int"}}
+        result = "map:int"
+
+        def call(fn, self, block_id):
+            return fn(self, block_id)
+
+        def requires(self, block_id):
+            oi = self.get("out_ind")
+            return S.And([S.item(oi, a) != S.item(oi, b) for a in range(rank) for b in range(a + 1, rank)])
+
+        def ensures(result, self, block_id, q):
+            oi = self.get("out_ind")
+            na = self.get("new_axes")
+            out = {}
+            for d in range(rank):
+                out[f"output-axis-{d}-keeps-the-output-coordinate"] = S.And(S.mhas(result, S.item(oi, d)),
+                                                                            mval(result, S.item(oi, d)) == S.item(block_id, d))
+            not_out = S.And([q != S.item(oi, d) for d in range(rank)])
+            out["new-axis-outside-the-output-reads-block-0"] = S.Implies(S.And(S.mhas(na, q), not_out),
+                                                                         S.And(S.mhas(result, q), mval(result, q) == 0))
+            out["no-other-labels"] = S.Implies(S.And(S.Not(S.mhas(na, q)), not_out), S.Not(S.mhas(result, q)))
+            return out
+
+        loops = {
+            "for#1": Loop(invariant=lambda v, v0: dict(
+                [(f"out-{d}", S.And(S.mhas(v.idx_to_block, S.item(v.self.get("out_ind"), d)),
+                                    mval(v.idx_to_block, S.item(v.self.get("out_ind"), d)) == S.item(v.block_id, d)))
+                 for d in range(rank)] + [
+                    ("visited", S.forall_idx(v.it, lambda i: S.And(
+                        S.mhas(v.idx_to_block, S.at(v.itkeys, i)),
+                        S.Or([S.at(v.itkeys, i) == S.item(v.self.get("out_ind"), d) for d in range(rank)]
+                             + [mval(v.idx_to_block, S.at(v.itkeys, i)) == 0])))),
+                    ("others", S.Implies(S.And([v.q != S.item(v.self.get("out_ind"), d) for d in range(rank)]
+                                               + [S.Not(S.mhas(v.self.get("new_axes"), v.q))]),
+                                         S.Not(S.mhas(v.idx_to_block, v.q)))),
+                ])),
+        }
+
+        def ghost_domain(self, block_id):
+            return {"q": range(0, 6)}
+
+        def domain(tier, rng):
+            import itertools
+            from pyvc.concrete import Rec
+            labels = [0, 1, 2, 3, 4]
+            for oi in itertools.permutations(labels, rank):
+                if oi[0] > 2:
+                    continue
+                for na in ({}, {oi[0]: 2} if rank else {5: 1}, {4: 1}, {oi[-1]: 1, 5: 3} if rank else {4: 2, 5: 2}):
+                    for bid in itertools.product((0, 1, 2), repeat=rank):
+                        yield {"self": Rec(out_ind=oi, new_axes=dict(na)), "block_id": bid}
+
+    idx_to_block.__name__ = f"idx_to_block_rank{rank}"
+    return idx_to_block
+
+
+IDX1 = _idx_to_block(1)
+IDX2 = _idx_to_block(2)
+IDX3 = _idx_to_block(3)
+
+
 # ---------------------------------------------------------------------------
 # C28: basic indexing refuses a non-trivial index on an axis of unknown size
 # ---------------------------------------------------------------------------
